@@ -74,6 +74,100 @@ def sig(v) -> list:
     return [flat(v)]
 
 
+# ------------------------------------------------------------------------------ offers derived from the header under test
+_CUR_TEXT = [""]      # the hostile text of the call being executed (set by run_call)
+_ALIASES = {"utf-8": ["utf8", "UTF-8", "u8"], "utf8": ["utf-8"], "latin1": ["iso-8859-1", "latin-1"], "iso-8859-1": ["latin1"],
+            "ascii": ["us-ascii"], "us-ascii": ["ascii"]}
+MAX_OFFERS = 7
+
+
+def derive_offers(text: str, kind: str) -> list:
+    """Offers for an Accept object parsed from `text` (kind: accept | mime | language | charset): every range occurring in
+    the text (the part of each list element before ';'), its primary tag, regional variants x-YY / x_yy, for MIME the
+    type/* and */* generalisations, charset aliases, and one unrelated offer.  Invalid mimetype offers are left out."""
+    import re
+
+    out: list = []
+
+    def add(o):
+        o = o.strip()
+        if not o or len(o) > 40 or o in out:
+            return
+        if kind == "mime":
+            if "/" not in o:
+                return
+            tp, _, sub = o.partition("/")
+            if tp.strip() == "*" and sub.split(";")[0].strip() != "*":
+                return
+        out.append(o)
+
+    tags = []
+    for elem in text.split(",")[:4]:
+        tag = elem.split(";")[0].strip().strip('"')
+        if tag and tag not in tags:
+            tags.append(tag)
+    # round robin over the derivations, so that every range of the text is represented before the list is cut
+    for tag in tags:
+        add(tag)
+    if kind == "mime":
+        for elem in text.split(",")[:4]:
+            if "q=" not in elem:
+                add(elem)                       # the range with its parameters
+        for tag in tags:
+            if "/" in tag:
+                add(tag.split("/")[0] + "/*")
+        add("*/*")
+    else:
+        prim = [re.split(r"[-_]", tag, maxsplit=1)[0] for tag in tags]
+        for p_ in prim:
+            add(p_)
+        for p_ in prim:
+            add(p_ + "-YY")
+        for tag in tags:
+            for al in _ALIASES.get(tag.lower(), []):
+                add(al)
+        for p_ in prim:
+            add(p_ + "_yy")
+    out = out[: MAX_OFFERS - 1]
+    unrelated = "x-unrelated/zz" if kind == "mime" else "zz-unrelated"
+    if unrelated not in out:
+        out.append(unrelated)
+    return out
+
+
+def derived_uses(kind: str, text=lambda: _CUR_TEXT[0]):
+    def offers(a):
+        o = derive_offers(text(), kind)
+        # cost control for pumped headers (hundreds of items, every call is linear in them): first range + the unrelated offer
+        return o if len(a) <= 40 else [o[0], o[-1]]
+
+    def pairs(o):
+        return [[x, y] for x in o for y in o if x != y]
+
+    return [
+        ("derived.contains", lambda a: [o in a for o in offers(a)]),
+        ("derived.quality", lambda a: [a.quality(o) for o in offers(a)]),
+        ("derived.best_match_singletons", lambda a: [a.best_match([o]) for o in offers(a)]),
+        ("derived.best_match_pairs", lambda a: [a.best_match(p) for p in pairs(offers(a))]),
+        ("derived.best_match_full", lambda a: a.best_match(offers(a))),
+        ("derived.best_match_default", lambda a: [a.best_match(m, default="d") for m in [offers(a)] + [[o] for o in offers(a)]]),
+    ]
+
+
+def derived_all(attr: str, header: str, kind: str):
+    """One Request position: all derived uses of the Accept object r.<attr>, offers derived from the header value."""
+    def use(r):
+        a = getattr(r, attr)
+        uses = derived_uses(kind, text=lambda: r.headers.get(header, ""))
+        out = []
+        for _, f in uses:
+            v = f(a)
+            out.extend(v if isinstance(v, list) else [v])
+        return out
+
+    return (attr + ".derived", use)
+
+
 # ------------------------------------------------------------------------------ the function table
 _TABLE = None
 
@@ -86,7 +180,7 @@ def table():
     from werkzeug import datastructures as ds
     from werkzeug import http
 
-    def accept_uses(OFFERS=("text/html", "application/json", "en", "en-US", "utf-8", "gzip", "a/b;p=1", "*")):
+    def accept_uses(OFFERS=("text/html", "application/json", "en", "en-US", "utf-8", "gzip", "a/b;p=1", "*"), kind="accept"):
         OFFERS = list(OFFERS)
         return [
             ("iter", lambda a: [(v, q) for v, q in a]),
@@ -100,11 +194,11 @@ def table():
             ("values", lambda a: list(a.values())),
             ("to_header", lambda a: a.to_header()),
             ("str", lambda a: str(a)),
-        ]
+        ] + derived_uses(kind)
 
     def mime_uses():
         # offers of a MIMEAccept must be valid mimetypes (an invalid *offer* is a documented ValueError for the developer)
-        return accept_uses(("text/html", "application/json", "a/b;p=1", "*/*", "text/*", "A/B; P=1")) + [("accept_flags", lambda a: (a.accept_html, a.accept_xhtml, a.accept_json))]
+        return accept_uses(("text/html", "application/json", "a/b;p=1", "*/*", "text/*", "A/B; P=1"), kind="mime") + [("accept_flags", lambda a: (a.accept_html, a.accept_xhtml, a.accept_json))]
 
     cc_attrs = ["no_cache", "no_store", "max_age", "no_transform", "max_stale", "min_fresh", "only_if_cached"]
     auth_uses = [
@@ -121,8 +215,8 @@ def table():
             ("find", lambda h: h.find("A")), ("as_set", lambda h: h.as_set()), ("to_header", lambda h: h.to_header())]),
         "parse_accept_header": (lambda s: http.parse_accept_header(s), accept_uses()),
         "parse_accept_header[MIMEAccept]": (lambda s: http.parse_accept_header(s, ds.MIMEAccept), mime_uses()),
-        "parse_accept_header[LanguageAccept]": (lambda s: http.parse_accept_header(s, ds.LanguageAccept), accept_uses()),
-        "parse_accept_header[CharsetAccept]": (lambda s: http.parse_accept_header(s, ds.CharsetAccept), accept_uses()),
+        "parse_accept_header[LanguageAccept]": (lambda s: http.parse_accept_header(s, ds.LanguageAccept), accept_uses(kind="language")),
+        "parse_accept_header[CharsetAccept]": (lambda s: http.parse_accept_header(s, ds.CharsetAccept), accept_uses(kind="charset")),
         "parse_cache_control_header": (lambda s: http.parse_cache_control_header(s),
                                        [(a, (lambda a: lambda c: getattr(c, a))(a)) for a in cc_attrs]
                                        + [("to_header", lambda c: c.to_header()), ("str", lambda c: str(c))]),
@@ -237,9 +331,13 @@ def request_uses():
         a("pragma"), ("pragma.to_header", lambda r: r.pragma.to_header()),
         a("accept_mimetypes"), ("accept_mimetypes.best_match", lambda r: r.accept_mimetypes.best_match(["text/html", "a/b;p=1"])),
         ("accept_mimetypes.to_header", lambda r: r.accept_mimetypes.to_header()),
+        derived_all("accept_mimetypes", "Accept", "mime"),
         a("accept_charsets"), ("accept_charsets.best_match", lambda r: r.accept_charsets.best_match(["utf-8", "latin1"])),
+        derived_all("accept_charsets", "Accept-Charset", "charset"),
         a("accept_encodings"), ("accept_encodings.best_match", lambda r: r.accept_encodings.best_match(["gzip", "br"])),
+        derived_all("accept_encodings", "Accept-Encoding", "accept"),
         a("accept_languages"), ("accept_languages.best_match", lambda r: r.accept_languages.best_match(["en", "de-AT"])),
+        derived_all("accept_languages", "Accept-Language", "language"),
         a("cache_control"), ("cache_control.max_age", lambda r: r.cache_control.max_age),
         ("cache_control.max_stale", lambda r: r.cache_control.max_stale),
         a("if_match"), ("if_match.to_header", lambda r: r.if_match.to_header()),
@@ -347,6 +445,7 @@ def run_call(fn: str, slot: str, s: str, budget: float = BUDGET_S) -> dict:
     call, uses = table()[fn]
     n = 1 + len(uses)
     kd, ty = [], []
+    _CUR_TEXT[0] = s
     if signal.getsignal(signal.SIGVTALRM) is not _alarm:
         signal.signal(signal.SIGVTALRM, _alarm)
     signal.setitimer(signal.ITIMER_VIRTUAL, budget)
